@@ -204,7 +204,7 @@ reg("C10", exc_ops=set(), nontrivial=nt_links, hook="paglinks", obs_fail=False,
     weights={"PagLinks": 40, "AddLinks": 30, "IndexBatchCrawl": 12, "AddPage": 12, "CreateWe": 12, "AddPrefix": 8,
              "Clear": 3, "DeleteWe": 1, "RemovePrefix": 1, "MovePrefix": 2},
     profile={"raw": 0.0, "long": 0.2, "nlrus": 16, "extend": 0.2, "continue": 0.8, "concentrate": 1,
-             "homelinks": 0.45}, steps=(24, 32), n=(240, 2000),
+             "homelinks": 0.45, "filteredstory": 0.05}, steps=(24, 32), n=(240, 2000),
     title="Pagelink pagination")
 reg("C11", exc_ops={"Reopen", "Clear", "Recreate", "ClearKeep"}, nontrivial=nt_pages, hook="life",
     roles=[("file", ()), ("file", ("Reopen",))], pairname="C11.twin", prefixes=["C11."],
